@@ -227,7 +227,7 @@ def vmdk_chain(draw, tier):
         exts = []
         for j in range(len(bounds) - 1):
             n = bounds[j + 1] - bounds[j]
-            kinds = ["kdmv", "kdmv", "cowd"] + (["flat"] if i == 0 else [])
+            kinds = ["kdmv", "kdmv", "cowd", "sesparse"] + (["flat"] if i == 0 else [])  # SE-sparse deltas: zeroed and unmapped grains over a parent
             e = draw(c02.extent_spec(tier, kind=draw(st.sampled_from(kinds)), layer=i * 8 + j, capacity=n, allow_compressed=False))
             e.pop("descriptor", None)
             exts.append(e)
